@@ -540,16 +540,15 @@ func (p *Parser) evaluateValues(ctx context) (evaluatedValues, error) {
 				return evaluatedValues{}, p.expectedError(fmt.Sprintf(`return value from function "%s"`, funcName), exprToken)
 			}
 		}
+		// In a list of several values, a function must only return one value.
+		if returnValuesLength > 1 && (nextToken.Type() == lexer.COMMA || len(expressions) > 1) {
+			return evaluatedValues{}, p.expectedError(fmt.Sprintf(`only one return value from function "%s"`, funcName), exprToken)
+		}
 		// Check if other values follow.
 		if nextToken.Type() != lexer.COMMA {
 			break
 		}
 		p.eat() // Eat comma token.
-
-		// If other values follow, function must only return one value.
-		if returnValuesLength > 1 {
-			return evaluatedValues{}, p.expectedError(fmt.Sprintf(`only one return value from function "%s"`, funcName), exprToken)
-		}
 	}
 	return evaluatedValues{
 		values: expressions,
